@@ -285,6 +285,9 @@ def value_kind(val):
 # interpreter
 
 
+_MISSING = object()
+
+
 class Interp:
     """Executes steps.  ``apply(step)`` returns the list of (bucket, detail) failures of that step (empty =
     invariant held) and raises AssertionError on a step that is not valid in the current state."""
@@ -324,13 +327,14 @@ class Interp:
         return Ent(coll, mirror, self._eid, anc, tainted, how)
 
     # ---- comparison
-    def _compare(self, ent):
-        """-> (None | short reason, detail, exception | None)"""
-        self.counts["computes"] += 1
-        try:
-            got = ent.coll.compute()
-        except Exception as e:
-            return "raises", util.exc_detail(e), e
+    def _compare(self, ent, got=_MISSING):
+        """-> (None | short reason, detail, exception | None); ``got`` = value from a joint dask.compute"""
+        if got is _MISSING:
+            self.counts["computes"] += 1
+            try:
+                got = ent.coll.compute()
+            except Exception as e:
+                return "raises", util.exc_detail(e), e
         ent.computed = True
         why = util.same(got, ent.mirror)
         if why is None and np.ma.isMaskedArray(ent.mirror) != np.ma.isMaskedArray(got) and np.ma.getmaskarray(ent.mirror).any():
@@ -350,17 +354,32 @@ class Interp:
             return "ancestor"
         return "unrelated"
 
-    def check_all(self, step_kind, target=None, target_bucket=None):
+    def check_all(self, step_kind, target=None, target_bucket=None, joint=False):
+        """Compare every live member with its mirror: one ``compute()`` per member, or (``joint``) ONE
+        ``dask.compute(*members)`` over a merged graph in which blocks are shared between the members."""
         fails = []
         seen = set()
+        live = self.live()
+        gots = {}
+        joint_exc = None
+        if joint and len(live) >= 2:
+            import dask
+
+            self.labels.add("joint-compute")
+            self.counts["computes"] += len(live)
+            try:
+                res = dask.compute(*[e.coll for _, e in live])
+                gots = {e.eid: r for (_, e), r in zip(live, res)}
+            except Exception as e:
+                joint_exc = e  # attribute it with per-member computes below
 
         def add(b, d):
             if b not in seen:
                 seen.add(b)
                 fails.append((b, d))
 
-        for i, ent in self.live():
-            why, detail, exc = self._compare(ent)
+        for i, ent in live:
+            why, detail, exc = self._compare(ent, gots.get(ent.eid, _MISSING))
             if why is None:
                 continue
             rel = self._relation(ent, target)
@@ -377,6 +396,8 @@ class Interp:
         for k, (arr, pristine) in enumerate(self.sources):
             if not (arr.shape == pristine.shape and arr.dtype == pristine.dtype and np.array_equal(arr, pristine)):
                 add(f"source-mutated|{step_kind}", f"source array {k} changed:\n now={_short(arr)}\n was={_short(pristine)}")
+        if joint_exc is not None and not fails:
+            add(util.exc_bucket(f"joint-compute-raises|{step_kind}", joint_exc), util.exc_detail(joint_exc))
         return fails
 
     # ---- decoding shared by setitem / ufunc_out
@@ -598,6 +619,8 @@ class Interp:
             return (lambda c: c.rechunk(ch)), (lambda a: a), []
         if kind == "copy":
             return (lambda c: c.copy()), (lambda a: a), []
+        if kind == "persist":
+            return (lambda c: c.persist()), (lambda a: a), []
         if kind == "asarray":
             import dask_array as da
 
@@ -639,8 +662,9 @@ class Interp:
             self.rejects.append(f"derive-raises-without-mutation:{kind}:{type(e).__name__}")
             self.ended = True
             return []
-        if y is v.coll:
-            # the operation handed back the very same object: NumPy-style alias, one shared entry
+        if y is v.coll and kind in ("asarray", "slice", "transpose", "rechunk"):
+            # the operation handed back the very same object (NumPy: np.asarray(a) is a, a[:] / a.T are views; rechunk to
+            # the same chunks has no NumPy counterpart): one shared entry.  copy() / persist() / arithmetic never alias.
             self.pool.append(v)
             self.labels.add("alias")
             return []
@@ -675,7 +699,7 @@ class Interp:
         return [(b, detail)]
 
     def op_compute_all(self, step):
-        return self.check_all("compute_all")
+        return self.check_all("compute_all", joint=bool(step.get("joint")))
 
     def op_compute_chunk_sizes(self, step):
         t = self.ent(step["src"])
@@ -693,7 +717,7 @@ class Interp:
         if others:
             self.labels.add("derived-before-mutation")
             self.nontrivial = True
-        fails = self.check_all("compute_chunk_sizes", t, "compute_chunk_sizes")
+        fails = self.check_all("compute_chunk_sizes", t, "compute_chunk_sizes", joint=bool(step.get("joint")))
         if not fails:
             ch = t.coll.chunks
             flat = [c for ax in ch for c in ax]
@@ -806,7 +830,7 @@ class Interp:
         if had_derived:
             self.labels.add("derived-before-mutation")
             self.nontrivial = True
-        return self.check_all("setitem", t, f"{kk}|{vk}")
+        return self.check_all("setitem", t, f"{kk}|{vk}", joint=bool(step.get("joint")))
 
     def _refusal_form(self, key, val, t, np_val, m_after, np_key):
         """Name of the enumerated by-design refusal this assignment falls under, else None."""
@@ -941,7 +965,7 @@ class Interp:
         fails = []
         if r is not t.coll:
             fails.append(("target-wrong|ufunc-out|result-is-not-out", f"{fn}(..., out=v) returned another object"))
-        return fails + self.check_all("ufunc_out", t, f"ufunc-out|{fn}|where-{wk}")
+        return fails + self.check_all("ufunc_out", t, f"ufunc-out|{fn}|where-{wk}", joint=bool(step.get("joint")))
 
 
 def _short(a):
@@ -1037,9 +1061,9 @@ def gen_derive(D_, it, family="any"):
     m = v.mirror
     nd = m.ndim
     if v.unknown:
-        kinds = [("add1", 2), ("mul2", 1), ("copy", 2), ("asarray", 1)]
+        kinds = [("add1", 2), ("mul2", 1), ("copy", 2), ("asarray", 1), ("persist", 1)]
     elif v.masked:
-        kinds = [("slice", 4 if nd else 0), ("transpose", 2 if nd >= 2 else 0), ("rechunk", 2 if nd else 0), ("copy", 2), ("add1", 1), ("mul2", 1), ("asarray", 1)]
+        kinds = [("slice", 4 if nd else 0), ("transpose", 2 if nd >= 2 else 0), ("rechunk", 2 if nd else 0), ("copy", 2), ("persist", 1), ("add1", 1), ("mul2", 1), ("asarray", 1)]
     else:
         same_shape = _members(it, lambda e: _plain(e) and e.shape == v.shape)
         kinds = [
@@ -1051,6 +1075,7 @@ def gen_derive(D_, it, family="any"):
             ("transpose", 2 if nd >= 2 else 0),
             ("rechunk", 3 if nd else 0),
             ("copy", 3),
+            ("persist", 2),
             ("asarray", 1),
             ("gt", 2),
             ("boolmask", 3 if nd else 0),
@@ -1315,7 +1340,7 @@ def gen_setitem(D_, it, family="any"):
     key, expect = _gen_key(D_, it, i, t, family)
     if key is None:
         return None
-    step = {"op": "setitem", "tgt": i, "key": key}
+    step = {"op": "setitem", "tgt": i, "key": key, "joint": D_.chance(1, 3)}
     if expect == "raise":
         step["value"] = {"scalar": _gen_scalar(D_)}
         step["expect"] = "raise"
@@ -1424,7 +1449,7 @@ def gen_ufunc(D_, it):
         W = _members(it, lambda e: _plain(e) and e.shape == t.shape)
         j = D_.choice(W)
         where = {"dcmp": {"src": j, "k": _krange(D_, it.pool[j].mirror)}}
-    step = {"op": "ufunc_out", "tgt": i, "fn": fn, "api": D_.choice(["np", "da"]), "ins": ins, "where": where}
+    step = {"op": "ufunc_out", "tgt": i, "fn": fn, "api": D_.choice(["np", "da"]), "ins": ins, "where": where, "joint": D_.chance(1, 3)}
     if form:
         step["form"] = form
     if where is None and form is None:
@@ -1444,7 +1469,7 @@ def gen_ccs(D_, it):
     unk = [c for c in cands if it.pool[c].unknown]
     if not cands:
         return None
-    return {"op": "compute_chunk_sizes", "src": D_.choice(unk) if unk and not D_.chance(1, 5) else D_.choice(cands)}
+    return {"op": "compute_chunk_sizes", "src": D_.choice(unk) if unk and not D_.chance(1, 5) else D_.choice(cands), "joint": D_.chance(1, 3)}
 
 
 def gen_compute(D_, it):
@@ -1453,7 +1478,7 @@ def gen_compute(D_, it):
 
 
 def gen_compute_all(D_, it):
-    return {"op": "compute_all"}
+    return {"op": "compute_all", "joint": D_.bool()}
 
 
 def gen_drop(D_, it):
@@ -1466,7 +1491,7 @@ def gen_drop(D_, it):
 # the state machine
 
 
-def _make_machine(col):
+def _make_machine(col, last=None):
     from hypothesis import strategies as st
     from hypothesis.stateful import RuleBasedStateMachine, initialize, rule
 
@@ -1476,6 +1501,8 @@ def _make_machine(col):
             self.it = Interp()
             self.steps = []
             self.done = False
+            if last is not None:
+                last["steps"] = self.steps
 
         def _run(self, data, gen, **kw):
             if self.done:
@@ -1580,20 +1607,35 @@ def run_shard(spec, seed):
     from hypothesis import HealthCheck, Phase, settings
     from hypothesis.stateful import run_state_machine_as_test
 
+    from hypothesis.errors import Flaky
+
     col = Collector()
-    Machine = _make_machine(col)
-    run_state_machine_as_test(
-        hypothesis.seed(seed)(Machine),
-        settings=settings(
-            max_examples=spec["cases"],
-            stateful_step_count=spec["steps"],
-            database=None,
-            deadline=None,
-            derandomize=False,
-            phases=[Phase.generate],
-            suppress_health_check=list(HealthCheck),
-        ),
-    )
+    last = {}
+    for attempt in range(4):
+        todo = spec["cases"] - col.evaluations
+        if todo <= 0:
+            break
+        Machine = _make_machine(col, last)
+        try:
+            run_state_machine_as_test(
+                hypothesis.seed(seed + attempt)(Machine),
+                settings=settings(
+                    max_examples=todo,
+                    stateful_step_count=spec["steps"],
+                    database=None,
+                    deadline=None,
+                    derandomize=False,
+                    phases=[Phase.generate],
+                    suppress_health_check=list(HealthCheck),
+                ),
+            )
+            break
+        except Flaky as e:
+            # Hypothesis replayed a choice prefix and the run took another course: since every draw depends only on the
+            # interpreter state, the code under test behaved differently on the same history (state leaking between
+            # collections / histories).  Recorded as a failure; the remaining budget continues under the next seed.
+            steps = last.get("steps") or [{"op": "new", "shape": [1], "dtype": "i8", "chunks": [[1]], "salt": 0}]
+            col.fail(f"nondeterministic|same-choices-different-course|{type(e).__name__}", {"steps": steps}, util.exc_detail(e))
     return col.result()
 
 
@@ -1696,6 +1738,8 @@ def _simpler_steps(steps):
         op = s.get("op")
         if s.get("cold"):
             yield _with(steps, k, dict(s, cold=False))
+        if s.get("joint"):
+            yield _with(steps, k, dict(s, joint=False))
         if op == "new":
             shape = s["shape"]
             if s["chunks"] != _one_chunk(shape):
